@@ -27,7 +27,7 @@ ASSUMPTIONS = [
 ]
 RULE = ("seeded generator (VERIF_SEED): data lengths biased to 0,1,bs-1,bs,bs+1,2bs..,1023..1025,2047..2049 and random <= 5000; source schedules "
         "{full, all 1-byte, EOF-with-data, random mixes incl. zero-byte answers}; caller buffers 1..4096 in five styles; writer chunkings 1..8192 in five "
-        "styles incl. empty writes; invalid pads: each pad byte corrupted, pad value 0 / > bs, ragged, short, empty. A case is non-trivial when "
+        "styles incl. empty writes, plus streams of 8-32 KiB written in single writes of 4448..8192 bytes; SM4-CBC round trips at lengths 0,1,15,16,17,31,32,1024 and random; invalid pads: each pad byte corrupted, pad value 0 / > bs, ragged, short, empty. A case is non-trivial when "
         "its data or stream is non-empty; distinct = distinct case text")
 
 
@@ -98,5 +98,40 @@ def predicate(f, io):
         if io[:3] != ["ok", "1", "1"]:
             return False, "SM4-CBC stream helper: ciphertext differs from CBC over the padded data, or decrypt(encrypt(s)) != s"
         return True, ""
-    # E / D: decided by comparison with the model (toy mode has no independent spec here)
+    if op in ("E", "D"):
+        # the toy chaining mode of the driver, re-implemented here: c_i = p_i + prev_i + k (mod 256) per block,
+        # prev = previous ciphertext block, initially the IV
+        bs, k, prev, body = int(f[2]), int(f[3]), _unhex(f[4]), _unhex(f[5])
+        if op == "E":
+            want = b""
+            p = _pad(body, bs)
+            for off in range(0, len(p), bs):
+                prev = bytes((p[off + i] + prev[i] + k) % 256 for i in range(bs))
+                want += prev
+            if io[0] != "ok":
+                return False, "encrypt helper returned an error on a well-behaved source"
+            if _unhex(io[1] if len(io) > 1 else "") != want:
+                return False, "encrypt helper output is not mode(data followed by one PKCS#7 pad)"
+            return True, ""
+        if len(body) == 0 or len(body) % bs != 0:
+            want_ok = None
+        else:
+            pt = b""
+            for off in range(0, len(body), bs):
+                blk = body[off:off + bs]
+                pt += bytes((blk[i] - prev[i] - k) % 256 for i in range(bs))
+                prev = blk
+            kk = pt[-1]
+            want_ok = pt[:-kk] if 1 <= kk <= bs and pt[-kk:] == bytes([kk]) * kk else None
+        if io[0] == "ok":
+            if want_ok is None:
+                return False, "decrypt helper accepted a ciphertext that is ragged or does not decrypt to a valid pad"
+            if _unhex(io[1] if len(io) > 1 else "") != want_ok:
+                return False, "decrypt helper emitted bytes different from the original stream"
+            return True, ""
+        if io[0] == "err":
+            if want_ok is not None:
+                return False, "decrypt helper rejected a valid ciphertext"
+            return True, ""
+        return False, "stream helper: unexpected result " + io[0]
     return True, ""
